@@ -3,6 +3,7 @@ package main
 import (
 	"fmt"
 	"math"
+	"sort"
 
 	"verifharness/internal/idlgen"
 	"verifharness/internal/values"
@@ -143,6 +144,61 @@ func aimShapes() *idlgen.Program {
 	}
 	main.Structs = append(main.Structs, mkReq("Req5", 5), mkReq("Req8", 8), mkReq("Req9", 9), mkReq("Req14", 14), mkReq("Req17", 17), &idlgen.Struct{Kind: 's', Name: "Empty"})
 	return &idlgen.Program{Files: []*idlgen.File{main, base}}
+}
+
+// reqCounts: the numbers of required fields of the aimed "required" unit, around the multiples of the word width w of
+// the required-field bitset (regenerated from bitset.go / gen_fastread.go): 1, w±1, w, 2w±1, 2w, 3w…, 4w…, 8w….
+func reqCounts(w int) []int {
+	seen := map[int]bool{}
+	var out []int
+	add := func(n int) {
+		if n >= 1 && !seen[n] {
+			seen[n] = true
+			out = append(out, n)
+		}
+	}
+	add(1)
+	for _, m := range []int{1, 2, 3, 4, 8} {
+		add(m*w - 1)
+		add(m * w)
+		add(m*w + 1)
+	}
+	sort.Ints(out)
+	return out
+}
+
+// aimRequired: one struct per count, n required fields with ids 1..n (declared in reverse order, so the bit of a field
+// in the bitset, which follows the id order, is not its declaration index), kinds cycling, plus one optional field.
+func aimRequired(w int) *idlgen.Program {
+	kinds := []*idlgen.Type{tBase(idlgen.I32), tBase(idlgen.Bool), tBase(idlgen.String), tBase(idlgen.Byte)}
+	f := &idlgen.File{Path: "req.thrift", GoNS: "c10.req"}
+	for _, n := range reqCounts(w) {
+		st := &idlgen.Struct{Kind: 's', Name: fmt.Sprintf("R%d", n)}
+		for i := n; i >= 1; i-- {
+			st.Fields = append(st.Fields, fld(int16(i), fmt.Sprintf("f%d", i), rR, kinds[i%len(kinds)], nil))
+		}
+		st.Fields = append(st.Fields, fld(int16(n+1), "opt", rO, tBase(idlgen.I32), nil))
+		f.Structs = append(f.Structs, st)
+	}
+	return &idlgen.Program{Files: []*idlgen.File{f}}
+}
+
+// reqValue: every required field set to a small non-zero value, the optional one unset.
+func reqValue(st *idlgen.SStruct) *values.Value {
+	rec := &values.Value{K: values.KRecord, E: make([]*values.Value, len(st.Fields))}
+	for i, fd := range st.Fields {
+		switch {
+		case fd.Req != idlgen.Required:
+			rec.E[i] = values.Nil()
+		case fd.Type.Kind == idlgen.RBool:
+			rec.E[i] = values.Bool(true)
+		case fd.Type.Kind == idlgen.RString:
+			rec.E[i] = values.Str("s")
+		default:
+			rec.E[i] = values.Int(int64(fd.ID % 100))
+		}
+	}
+	return rec
 }
 
 // probe programs: shapes the unchanged fastgo backend is known (docs/BATCH-notes.md) or suspected to
